@@ -87,6 +87,12 @@ def check_contour(case, ctx):
                 ctx.violation(f"distinct:{tag}", f"two directions coincide (max cosine {g.max()!r})")
 
     if not np.all(np.isfinite(coords)):
+        # a dependence function extrapolated to the 1e-7 tail can push a quantile beyond the largest float
+        # (mu = 1476 for a log-normal): the exact value overflows too, nothing to compare
+        ref_nf = refmodel.inverse_rosenblatt(spec, sp.ndtr(sph))
+        if np.all(np.isfinite(coords) | ~np.isfinite(ref_nf) | (np.abs(ref_nf) > 1e300)):
+            ctx.cls("overflow:reference_overflows_too")
+            return
         ctx.violation(f"nonfinite:{tag}", f"{int(np.sum(~np.isfinite(coords)))} non-finite coordinates, first row {coords[~np.isfinite(coords).all(axis=1)][:1].tolist()}")
         return
 
@@ -152,6 +158,14 @@ def check_contour(case, ctx):
     has_vm = [l["family"] == "VonMises" for l in spec]
     dev[:, has_vm] = np.minimum(dev[:, has_vm], 0)  # compared on the circle through the back-map above
     finite = np.isfinite(ref)
+    bad = np.argwhere(finite & (dev > 1e-6))
+    for r, k in bad.tolist():
+        # second chance in probability space: in the far upper tail scipy's quantile functions lose digits of 1 - p
+        # (p**(1/delta) next to 1), which moves x by 1e-6 relative while F(x) still equals the level to 1e-12
+        j = spec[k].get("conditional_on")
+        pr = float(refmodel.level_fun(spec, k, "cdf", coords[r, k], None if j is None else coords[r, j]))
+        if abs(pr - P[r, k]) <= 1e-12:
+            dev[r, k] = 0.0
     if np.any(dev[finite] > 1e-6):
         r, k = np.unravel_index(np.argmax(np.where(finite, dev, 0)), dev.shape)
         ctx.violation(
